@@ -41,7 +41,7 @@ type runSpec struct {
 	ci, si  int
 	o       combo
 	// channels
-	chanP0, chanSteps int
+	chanP0, chanSteps, chanLambda int
 	naive             bool
 }
 
@@ -90,10 +90,10 @@ func buildRuns(cases []*caseT, combos []combo) []runSpec {
 						continue
 					}
 					for _, o := range cs {
-						if c.Kind == "line1d" && o.Cons != "none" {
+						if c.Kind == "line1d" && o.Cons != "none" && c.Form == "window" {
 							continue
 						}
-						if o.Cons == "half" && !c.Starts[si].Half.Has {
+						if o.Cons == "half" && !c.Starts[si].Half.Has && c.Kind != "line1d" {
 							continue
 						}
 						if rt.name == "saga" && c.D == 0 && o.HookStop > 0 {
@@ -115,12 +115,14 @@ func buildRuns(cases []*caseT, combos []combo) []runSpec {
 			for sti := range c.Steps {
 				for _, hs := range []int{0, 1, 3} {
 					for _, naive := range []bool{false, true} {
-						name := "blahut"
-						if naive {
-							name = "blahut.naive"
+						for li := range c.Lambdas {
+							name := "blahut"
+							if naive {
+								name = "blahut.naive"
+							}
+							key := fmt.Sprintf("%s||c%d|p%d|t%d|h%d|l%d", name, c.index, pi, sti, hs, li)
+							runs = append(runs, runSpec{key: key, ci: c.index, chanP0: pi, chanSteps: sti, chanLambda: li, naive: naive, o: combo{HookStop: hs, Cons: "none", Maxit: c.Steps[sti]}})
 						}
-						key := fmt.Sprintf("%s||c%d|p%d|t%d|h%d", name, c.index, pi, sti, hs)
-						runs = append(runs, runSpec{key: key, ci: c.index, chanP0: pi, chanSteps: sti, naive: naive, o: combo{HookStop: hs, Cons: "none", Maxit: c.Steps[sti]}})
 					}
 				}
 			}
@@ -206,10 +208,19 @@ func main() {
 	perRoutine := map[string]int{}
 	perStratum := map[string]int{}
 	families := map[string]map[string]bool{}
+	// ... and within a family half of the share goes to the "free" runs (large cap, hook absent or never stopping):
+	// only those can end by the stopping condition, which is what most of the property is about
+	stratum := func(rs *runSpec) string {
+		free := "bounded"
+		if rs.rt != nil && rs.o.Maxit < 0 && rs.o.HookStop <= 0 {
+			free = "free"
+		}
+		return rs.routineName() + "/" + cases[rs.ci].Kind + "/" + free
+	}
 	for i := range all {
 		rn, fam := all[i].routineName(), cases[all[i].ci].Kind
 		perRoutine[rn]++
-		perStratum[rn+"/"+fam]++
+		perStratum[stratum(&all[i])]++
 		if families[rn] == nil {
 			families[rn] = map[string]bool{}
 		}
@@ -234,8 +245,11 @@ func main() {
 			selected = append(selected, rs)
 			continue
 		}
-		tot := perStratum[rs.routineName()+"/"+cases[rs.ci].Kind]
+		tot := perStratum[stratum(&rs)]
 		share := (target + len(families[rs.routineName()]) - 1) / len(families[rs.routineName()])
+		if rs.rt != nil {
+			share = (share + 1) / 2
+		}
 		if tot <= share || hash64(fmt.Sprintf("%d/%s", seed, rs.key))%uint64(tot) < uint64(share) {
 			selected = append(selected, rs)
 		}
@@ -308,11 +322,25 @@ func main() {
 			for i := range c.W {
 				W[i] = ratsF(c.W[i])
 			}
-			cp := &chanProblem{c: c, W: W, p0: ratsF(c.P0s[rs.chanP0]), steps: c.Steps[rs.chanSteps], naive: rs.naive}
+			cp := &chanProblem{c: c, W: W, p0: ratsF(c.P0s[rs.chanP0]), steps: c.Steps[rs.chanSteps], naive: rs.naive, lambda: c.Lambdas[rs.chanLambda].f()}
 			begin.Algo, begin.Maxit, begin.HookKind, begin.IterBy, begin.Fixed, begin.Sc = rs.routineName(), cp.steps, "args", "hook", true, false
 			begin.HasHook = true
 			res = runBlahut(cp, rs.o, r)
 			info["channel"] = c.Name
+			info["lambda"] = cp.lambda
+			info["p0"] = cp.p0
+			// option class of the run (part of the violation signature)
+			cl := "lambda<=1"
+			if cp.lambda > 1 {
+				cl = "lambda>1"
+			}
+			for _, v := range cp.p0 {
+				if v == 0 {
+					cl += "/zero_start"
+					break
+				}
+			}
+			info["optclass"] = cl
 		} else {
 			rt := rs.rt
 			st := &c.Starts[rs.si]
@@ -323,7 +351,22 @@ func main() {
 				pr.f = c.objective()
 			}
 			pr.cons = st.constraint(rs.o.Cons)
-			pr.eps = math.Pow(10, -float64(rs.o.EpsExp)/float64(rt.epsDiv))
+			if c.Kind == "line1d" && rs.o.Cons != "none" {
+				// the feasible interval [0, c] of the case
+				cmax := c.Cbox.f()
+				if rs.o.Cons == "half" {
+					cmax = c.Chalf.f()
+				}
+				pr.cons = func(a []float64) bool { return a[0] <= cmax }
+			}
+			epsExp := rs.o.EpsExp
+			if c.Kind == "quadhard" {
+				epsExp += 6 // the option class "unreachable epsilon": 1e-12 and (capped) 1e-14
+				if epsExp > 14 {
+					epsExp = 14
+				}
+			}
+			pr.eps = math.Pow(10, -float64(epsExp)/float64(rt.epsDiv))
 			maxit := rt.bigCap
 			// larger caps where the run stays short anyway (the caps only bound the trace volume)
 			if strings.HasPrefix(rt.name, "newton") && rs.o.Cons != "half" {
@@ -331,6 +374,11 @@ func main() {
 			}
 			if rt.name == "bfgs" && c.Kind != "rosen" {
 				maxit = 150
+			}
+			if rt.name == "bfgs" && c.Kind == "quadhard" {
+				// a stalled BFGS spends hundreds of evaluations in failing line searches: the cap must stay out of
+				// reach of the evaluation counter, so that a nil return has to be justified by the stopping condition
+				maxit = 5000
 			}
 			if rs.o.Maxit >= 0 {
 				maxit = rt.smallCap
@@ -364,14 +412,10 @@ func main() {
 			ret.NearMin = *res.nearOK
 		}
 		if rs.rt != nil && begin.HasCons && res.pt != nil {
-			st := &cases[rs.ci].Starts[rs.si]
-			cons := st.constraint(rs.o.Cons)
-			if rs.rt.name == "lineSearch" {
-				// the constraint of the restriction: the point x0 + alpha d (re-computed by the runner's closure is not
-				// available here): evaluate through the last recorded answer instead
-				ret.ConsOK = lineConsOK(cases[rs.ci], st, cons, res.pt[0], rs.variant)
+			if res.consOK != nil {
+				ret.ConsOK = *res.consOK // (line search: the constraint of the one-dimensional restriction)
 			} else {
-				ret.ConsOK = cons(res.pt)
+				ret.ConsOK = cases[rs.ci].Starts[rs.si].constraint(rs.o.Cons)(res.pt)
 			}
 		}
 		outcome := "stop"
@@ -413,17 +457,6 @@ func main() {
 		"per_routine_universe": perRoutine, "outcomes": counts, "cases": len(cases), "combos": len(combos)})
 	trace.Close()
 	out.Close()
-}
-
-// lineConsOK evaluates the user constraint at the point of the 1-d restriction.
-func lineConsOK(c *caseT, st *startRec, cons func([]float64) bool, alpha float64, variant string) bool {
-	_, g0 := valGrad(c.objective(), st.X)
-	_, scale := lineVariant(variant)
-	p := make([]float64, len(g0))
-	for i := range g0 {
-		p[i] = st.X[i] + alpha*(-g0[i]*scale)
-	}
-	return cons(p)
 }
 
 func sortCombos(cs []combo) {
